@@ -51,6 +51,41 @@ pub struct TextSpec {
     pub glyphs: bool,
 }
 
+/// The same path put together through the public PathBuilder calls, one call per stored op (C20: the builder
+/// records exactly what it is given). Every other path, by a hash of its coordinates, takes this route, so that
+/// the drawing checks see paths the way users make them as well as hand-assembled op lists.
+pub fn via_builder(p: &Path) -> Path {
+    let mut pb = PathBuilder::new();
+    for op in &p.ops {
+        match *op {
+            PathOp::MoveTo(a) => pb.move_to(a.x, a.y),
+            PathOp::LineTo(a) => pb.line_to(a.x, a.y),
+            PathOp::QuadTo(c, a) => pb.quad_to(c.x, c.y, a.x, a.y),
+            PathOp::CubicTo(c1, c2, a) => pb.cubic_to(c1.x, c1.y, c2.x, c2.y, a.x, a.y),
+            PathOp::Close => pb.close(),
+        }
+    }
+    let mut out = pb.finish();
+    out.winding = p.winding;
+    out
+}
+
+pub fn maybe_via_builder(p: &Path) -> std::borrow::Cow<'_, Path> {
+    let mut h: u32 = p.ops.len() as u32;
+    for op in &p.ops {
+        let q = match *op {
+            PathOp::MoveTo(a) | PathOp::LineTo(a) | PathOp::QuadTo(_, a) | PathOp::CubicTo(_, _, a) => a,
+            PathOp::Close => continue,
+        };
+        h = h.wrapping_mul(31).wrapping_add(q.x.to_bits() ^ q.y.to_bits().rotate_left(7));
+    }
+    if (h ^ (h >> 11)) & 1 == 1 {
+        std::borrow::Cow::Owned(via_builder(p))
+    } else {
+        std::borrow::Cow::Borrowed(p)
+    }
+}
+
 impl Op {
     pub fn is_draw(&self) -> bool {
         !matches!(self, Op::SetTransform(_) | Op::PushClipRect(..) | Op::PushClip(_) | Op::PopClip | Op::PushLayer(..) | Op::PopLayer | Op::UserScale(_))
@@ -91,12 +126,12 @@ impl Op {
         match self {
             Op::SetTransform(t) => dt.set_transform(t),
             Op::PushClipRect(x0, y0, x1, y1) => dt.push_clip_rect(IntRect::new(IntPoint::new(*x0, *y0), IntPoint::new(*x1, *y1))),
-            Op::PushClip(p) => dt.push_clip(p),
+            Op::PushClip(p) => dt.push_clip(&maybe_via_builder(p)),
             Op::PopClip => dt.pop_clip(),
             Op::PushLayer(o, m) => dt.push_layer_with_blend(*o, *m),
             Op::PopLayer => dt.pop_layer(),
-            Op::Fill(p, s, o) => s.with(|src| dt.fill(p, src, o)),
-            Op::Stroke(p, s, st, o) => s.with(|src| dt.stroke(p, src, st, o)),
+            Op::Fill(p, s, o) => s.with(|src| dt.fill(&maybe_via_builder(p), src, o)),
+            Op::Stroke(p, s, st, o) => s.with(|src| dt.stroke(&maybe_via_builder(p), src, st, o)),
             Op::FillRect(x, y, w, h, s, o) => s.with(|src| dt.fill_rect(*x, *y, *w, *h, src, o)),
             Op::Clear(c) => dt.clear(solid(*c)),
             Op::Mask(s, x, y, mw, mh, data) => {
